@@ -277,8 +277,11 @@ def run_blocks(op):
             constants.append_store_instructions_to_split()
         constants._set_push0(params.push0)
         g.modify_file_names(params)
-        seq = [(t, "hist%d" % i) for i, t in enumerate(op.get("history", []))] + [(op["block"], "target")]
-        for text, prefix in seq:
+        # op["same_name"]: indices of history members that carry the target's block name (what two contracts with the same
+        # short name in one combined json produce)
+        same = set(op.get("same_name") or [])
+        seq = [(t, "target" if i in same else "hist%d" % i, False) for i, t in enumerate(op.get("history", []))] + [(op["block"], "target", True)]
+        for text, prefix, is_target in seq:
             blocks = pa.parse_blocks_from_plain_instructions(text, "c", prefix)
             for b in blocks:
                 rec = {"name": b.block_name}
@@ -306,7 +309,7 @@ def run_blocks(op):
                     rec["gas"] = (b.gas_spent, new_block.gas_spent)
                 except BaseException as e:
                     rec["exc"] = "%s: %s" % (type(e).__name__, str(e)[:200])
-                if prefix == "target":
+                if is_target:
                     result.setdefault("target", []).append(rec)
     except BaseException as e:
         result["exc"] = "%s: %s" % (type(e).__name__, str(e)[:300])
